@@ -167,8 +167,14 @@ func (p *polling) onDataRequest(ctx *types.HttpContext) {
 	}
 	if body := ctx.Request().Body; body != nil {
 		// the length may be undeclared (chunked): never read more than the limit
-		n, _ := packet.ReadFrom(io.LimitReader(body, p.MaxHttpBufferSize()+1))
+		n, err := packet.ReadFrom(io.LimitReader(body, p.MaxHttpBufferSize()+1))
 		body.Close()
+		if err != nil {
+			// the upload ended early: what arrived is not the client's payload
+			cleanup()
+			p.OnError("data request connection closed prematurely", err)
+			return
+		}
 		if n > p.MaxHttpBufferSize() {
 			cleanup()
 
